@@ -271,6 +271,12 @@ Definition chk_stats (c : list tkind * list nat * list N * N * list (option N * 
   | Err _ => false
   end.
 
+(* the X-Forwarded-For values of a request: the model's strings.Split gives as many items per value as the library's *)
+Definition chk_xffsplit (c : list bytes * list N) : bool :=
+  let '(values, lens) := c in
+  Nat.eqb (length values) (length lens) &&
+  forallb (fun p => N.eqb (N.of_nat (length (go_split comma (fst p)))) (snd p)) (combine values lens).
+
 (* ---------------------------------------------------------------- all entry points in one case type *)
 Inductive anycase :=
   | AParams (c : trk * N * option anyv * oclass * oclass * N)
@@ -293,7 +299,8 @@ Inductive anycase :=
   | AObfs4 (c : list oreg * bytes * oclass)
   | ADnsMsg (c : bytes * oclass * N * msg_obs)
   | ADnsRecv (c : name * N * list (option bytes) * bytes * oclass * (N * N * N * N * bytes))
-  | AStats (c : list tkind * list nat * list N * N * list (option N * option N * option N)).
+  | AStats (c : list tkind * list nat * list N * N * list (option N * option N * option N))
+  | AXffSplit (c : list bytes * list N).
 
 Definition chk (a : anycase) : bool :=
   match a with
@@ -303,5 +310,5 @@ Definition chk (a : anycase) : bool :=
   | ATryId c => chk_tryid c | AWorker c => chk_worker c | ARawReg c => chk_rawreg c | ADtlsConn c => chk_dtlsconn c
   | ADnsProc c => chk_dnsproc c | AMin c => chk_min c | APrefix c => chk_prefix c
   | AMarkMac c => chk_markmac c | AObfs4 c => chk_obfs4 c | ADnsMsg c => chk_dnsmsg c
-  | ADnsRecv c => chk_dnsrecv c | AStats c => chk_stats c
+  | ADnsRecv c => chk_dnsrecv c | AStats c => chk_stats c | AXffSplit c => chk_xffsplit c
   end.
